@@ -303,15 +303,8 @@ Definition spec_unescape (q : Z) (body : list Z) : option (list Z) :=
 (* after an opening '[': the level if the bytes are  =^n [  *)
 Fixpoint long_open (s : list Z) (n : Z) : option (Z * list Z) :=
   match s with
-  | 61 :: r => long_open r (n + 1)
-  | 91 :: r => Some (n, r)
-  | _ => None
-  end.
-
-Fixpoint eq_run (s : list Z) : list Z * list Z :=
-  match s with
-  | 61 :: r => let '(a, b) := eq_run r in (61 :: a, b)
-  | _ => ([], s)
+  | c :: r => if c =? 61 then long_open r (n + 1) else if c =? 91 then Some (n, r) else None
+  | [] => None
   end.
 
 (* does [s] start with  =^n ]  ?  -> rest *)
@@ -340,11 +333,14 @@ Fixpoint long_body (n : nat) (s : list Z) : option (list Z * list Z * list Z) :=
 (* a first line break directly after the opening bracket is not part of the string *)
 Definition skip_first_eol (s : list Z) : list Z :=
   match s with
-  | 10 :: 13 :: r => r
-  | 13 :: 10 :: r => r
-  | 10 :: r => r
-  | 13 :: r => r
-  | _ => s
+  | c :: r =>
+    if is_eol c then
+      match r with
+      | d :: r' => if is_eol d && negb (c =? d) then r' else r
+      | [] => r
+      end
+    else s
+  | [] => s
   end.
 
 (* every line-break sequence inside a long string denotes one \n *)
@@ -458,8 +454,8 @@ Definition spec_step (s : list Z) : option (stok * list Z) :=
       match r with
       | 58 :: r2 =>
         let '(a, b) := span is_name_char r2 in
-        match a, b with
-        | n0 :: _, 58 :: 58 :: rest =>
+        match a, strip_prefix [58; 58] b with
+        | n0 :: _, Some rest =>
           if is_name_start n0 then Some (mk SLabel (58 :: 58 :: a ++ [58; 58]) a, rest) else None
         | _, _ => None
         end
